@@ -94,9 +94,28 @@ def lib_unmarshal(data, **kw):
     worst case 2.0 calls per byte; the tight C08 budget is separate)."""
     from pamqp import frame
     n = len(data)
+    explicit = bool(kw)
     kw.setdefault('_calls', 40 * n + 20000)
     kw.setdefault('_jumps', 40 * n + 20000)
-    return call(frame.unmarshal, data, **kw)
+    res = call(frame.unmarshal, data, **kw)
+    if not explicit and res.ok and n <= 65536 and _decoded_has_decimal(
+            res.value):
+        other = _under_caller_contexts(frame.unmarshal, (data,), res)
+        if other is not None:
+            return other
+    return res
+
+
+def _decoded_has_decimal(value):
+    try:
+        fr = value[2]
+        for holder in (fr, getattr(fr, 'properties', None)):
+            for nm in getattr(type(holder), '__slots__', ()) or ():
+                if has_decimal(object.__getattribute__(holder, nm)):
+                    return True
+    except Exception:
+        pass
+    return False
 
 
 LOOKALIKES = [0, 0]      # [calls, calls preceded by look-alike frames]
@@ -143,7 +162,143 @@ def lib_marshal(obj, channel, **kw):
             kind = {1: 'method', 2: 'header', 3: 'body'}.get(first.value[0])
             if marshal_lookalikes(channel, len(first.value) - 8, kind):
                 LOOKALIKES[1] += 1
-    return call(frame.marshal, obj, channel, **kw)
+    if LOOKALIKES[0] % 4 == 2 and not kw:
+        _prior_use_of_same_object(obj, channel)
+    res = call(frame.marshal, obj, channel, **kw)
+    if not kw and _frame_has_decimal(obj):
+        other = _under_caller_contexts(frame.marshal, (obj, channel), res)
+        if other is not None:
+            return other
+    return res
+
+
+PRIOR_USE = [0]
+
+
+def _prior_use_of_same_object(obj, channel):
+    """The frame OBJECT about to be judged was used before with other
+    content: it is changed (a table filled in place, an attribute assigned),
+    marshalled on the same channel (outcome ignored) and changed back the
+    same way.  Whatever the library remembered about the object from that
+    earlier send must not reach the judged one."""
+    from pamqp import body, frame, header
+    undo = None
+    try:
+        if isinstance(obj, body.ContentBody):
+            v = obj.value
+            if type(v) is bytes and v:
+                obj.value = bytes(b ^ 0x55 for b in v)
+
+                def undo():
+                    obj.value = v
+        elif isinstance(obj, header.ContentHeader):
+            props = obj.properties
+            h = getattr(props, 'headers', None)
+            if type(h) is dict and PRIOR_USE[0] % 2 == 0:
+                h['x-vmon-earlier-send'] = 1
+
+                def undo():
+                    del h['x-vmon-earlier-send']
+            elif PRIOR_USE[0] % 4 == 1 and props is not None:
+                old = props.message_id
+                props.message_id = 'vmon-earlier-send'
+
+                def undo():
+                    props.message_id = old
+            elif type(obj.body_size) is int and obj.body_size < 2**63:
+                obj.body_size += 1
+
+                def undo():
+                    obj.body_size -= 1
+        else:
+            for n in getattr(type(obj), '__slots__', ()) or ():
+                v = getattr(obj, n, None)
+                if type(v) is dict:
+                    v['x-vmon-earlier-send'] = 1
+
+                    def undo(v=v):
+                        del v['x-vmon-earlier-send']
+                    break
+                if type(v) is bool and n != 'insist':
+                    setattr(obj, n, not v)
+
+                    def undo(n=n, v=v):
+                        setattr(obj, n, v)
+                    break
+    except Exception:
+        pass
+    if undo is None:
+        return
+    try:
+        call(frame.marshal, obj, channel)
+        PRIOR_USE[0] += 1
+    finally:
+        try:
+            undo()
+        except Exception:
+            pass
+
+
+CALLER_CONTEXTS = [0, 0]   # [frames with a decimal re-run, outcomes differing]
+
+
+def _frame_has_decimal(obj):
+    """Does the frame object about to be marshalled carry a Decimal (method
+    argument, property, anywhere inside a table)?"""
+    try:
+        for holder in (obj, getattr(obj, 'properties', None)):
+            for n in getattr(type(holder), '__slots__', ()) or ():
+                if has_decimal(object.__getattribute__(holder, n)):
+                    return True
+    except Exception:
+        pass
+    return False
+
+
+def _slot_values(holder):
+    out = {}
+    for n in getattr(type(holder), '__slots__', ()) or ():
+        try:
+            v = object.__getattribute__(holder, n)
+        except AttributeError:
+            continue
+        out[n] = _slot_values(v) if n == 'properties' else v
+    return out
+
+
+def _outcome_key(o):
+    if o.ok:
+        v = o.value
+        if isinstance(v, tuple) and len(v) == 3:      # frame.unmarshal
+            v = (v[0], v[1], type(v[2]).__name__, _slot_values(v[2]))
+        return ('ok', v if isinstance(v, bytes)
+                else canon.text(v, ordered=True))
+    return ('exceeded',) if o.exceeded else ('raised', o.exc_type)
+
+
+def _under_caller_contexts(fn, args, first):
+    """A frame carrying a decimal is encoded / decoded once more under each
+    decimal context a calling thread may have installed (narrow precision,
+    other rounding, every trap enabled).  The thread's context is the
+    caller's business, not an input of the codec: if any of them changes the
+    outcome, THAT outcome is handed to the oracle of the calling check."""
+    import decimal
+    CALLER_CONTEXTS[0] += 1
+    try:
+        k0 = _outcome_key(first)
+    except Exception:
+        return None
+    for ctx in narrow_contexts():
+        with decimal.localcontext(ctx):
+            o = call(fn, *args)
+            try:
+                k = _outcome_key(o)
+            except Exception:
+                continue
+        if k != k0:
+            CALLER_CONTEXTS[1] += 1
+            return o
+    return None
 
 
 def is_unmarshaling_exception(exc):
